@@ -61,7 +61,9 @@ PROPS = {
             'level_text': 'Partial claim: in ctrsbox_pgd / ctrsbox_sfista / ctrsbox_linear the trust-region ball is appended LAST to the projection list (closure recognised and tied to '
                           'util.pball\'s verified contract), Dykstra\'s result is an output of the last projector whenever a sweep ran, so every returned step has ||d|| <= Delta in real '
                           'arithmetic (loop invariant on the real loops); ctrsbox_geometry returns one of two such steps; in Controller.trust_region_step the regularised step handed back has '
-                          'h(x) - m(d) >= 0 because the zero step is substituted otherwise and m(0) == h(x) (contract of model_value).',
+                          'h(x) - m(d) >= 0 because the zero step is substituted otherwise and m(0) == h(x) (contract of model_value). ball_step (last move of the bound-constrained '
+                          'geometry step): alpha >= 0 and, unless ||g|| < 1e-14, ||x0 + alpha*g|| == Delta exactly in real arithmetic (nonlinear obligation on the real body) - a necessary '
+                          'piece of the optimality clause. The convex step solvers are entered only with a finite model gradient and Hessian (call-site obligation).',
             'level_note': 'Domain V: reals, opaque vectors with vector-space / norm axioms, exact projector contract for caller-supplied projections (A-callback). NOT decided: box/ball feasibility to 1e-12 '
                           'and GLOBAL OPTIMALITY to 1e-6 of trsbox_geometry / trsbox_linear (active-set loop, nonlinear invariants over symbolic dimension) and the (1+1e-8) rounding slack. '
                           'A-params sub-range: func_tol.max_iters >= 1 (0 is accepted by the parameter check and leaves a local unbound in ctrsbox_sfista).',
@@ -133,14 +135,16 @@ PROPS = {
             'level_note': LEDGER_NOTE + ' ' + MODEL_NOTE + ' ASSUMED, not proved: solve_geom_system returns the interpolant / least-squares fit (LAPACK QR and triangular '
                           'solves are opaque), hence "equals A for linear residuals" is a consequence of an assumption.',
             'not_decided': ['the matrix equals the fit (LAPACK)', 'make_full_rank SVD perturbation']},
-    'C16': {'bundles': ['model'], 'level': 'proof',
+    'C16': {'bundles': ['model', 'precond'], 'level': 'proof',
             'level_text': 'Partial claim: (i) base-shift invariance — shift_base leaves every absolute point, the model value at every fixed absolute point, the residual vector '
                           'assembled by build_full_model (hence g and H) and the Jacobian unchanged (real vector arithmetic, linear matvec); (ii) the cached factorisation is never stale: '
                           'a ghost geometry version is bumped by every point-set mutator and factorisation_current implies the cached version is the current one (class invariant), so a '
-                          'missing "factorisation_current = False" is a refuted class invariant; (iii) build_full_model returns g = 2 J^T r, H = 2 J^T J.',
+                          'missing "factorisation_current = False" is a refuted class invariant; (iii) build_full_model returns g = 2 J^T r, H = 2 J^T J; (iv) preconditioning consistency: '
+                          'interpolation_matrix returns [1 | directions / s] together with right_scaling = (1, 1/s, ..., 1/s) for the same s, and s == 1 when preconditioning is off, so the '
+                          'un-scaled solution solves the unscaled interpolation system under both settings of the option.',
             'level_note': MODEL_NOTE + ' NOT decided: reproduction of the data by the fit, least-squares orthogonality, L_k(y_j) = delta_kj — these are statements about LAPACK QR / triangular '
-                          'solves (solve_geom_system, interpolation_matrix preconditioning), which are opaque here; add_new_sample can move kopt without clearing the flag (O5, unreachable from solve).',
-            'not_decided': ['data reproduction / least-squares orthogonality / Lagrange identities (LAPACK)', 'interpolation_matrix preconditioning']},
+                          'solves (solve_geom_system), which are opaque here; clause (iv) is in domain Sc (matrices as opaque terms, scalars real); add_new_sample can move kopt without clearing the flag (O5, unreachable from solve).',
+            'not_decided': ['data reproduction / least-squares orthogonality / Lagrange identities (LAPACK QR and triangular solves are opaque)']},
     'C17': {'bundles': ['model'], 'level': 'proof',
             'level_text': 'The bookkeeping statement is a class invariant of Model, established by __init__ and preserved by each of the seven mutators from any state '
                           'satisfying it (induction over all operation histories), with full-view postconditions (every other record unchanged) and exact NaN semantics.',
@@ -158,7 +162,7 @@ PROPS = {
                            'syntactic and name-based. ') + LEDGER_NOTE,
             'not_decided': ['delta <= 1e10 with a regulariser (tau has no positive lower bound)', 'recorded best objective never increases (follows from C04, not re-proved here)',
                             'number of interpolation points between 2 and the maximum']},
-    'C06': {'bundles': ['passthru', 'box', 'owner'], 'level': 'proof',
+    'C06': {'bundles': ['passthru', 'box', 'owner', 'ledger'], 'level': 'proof',
             'level_text': 'Narrow claim. (i) Pass-through: at every call of h (17 sites) and of prox_uh (in the nested gradient_Fu) the call has the shape h(x, *argsh) / prox_uh(x, u, *argsprox) '
                           'with exactly the tuples the caller gave to solve (ghost tokens followed through solve -> solve_main -> Controller -> Model / model_value / ctrsbox_sfista, constructor and '
                           'keyword bindings included), and the starred calls conform for tuples of any length. (ii) True box: every projector handed to the regularised subproblem returns the absolute '
